@@ -286,3 +286,38 @@ end module misc_mod
 
 def names():
     return list(PROGRAMS)
+
+
+# Programs used only by C14 (statement labels, labelled DO termination)
+LABEL_PROGRAMS = {}
+LABEL_PROGRAMS["labels"] = """\
+subroutine label_demo(n, a)
+  implicit none
+  integer, intent(in) :: n
+  real, intent(inout) :: a(n)
+  integer :: i, j
+  real :: acc
+  acc = 0.0
+  do 10 i = 1, n
+    a(i) = 0.0
+10 continue
+  do 20 i = 1, n
+    do 20 j = 1, n
+      acc = acc + a(i) * j
+20 continue
+  if (n > 100) goto 30
+  a(1) = acc
+30 continue
+  do 40 i = 1, n
+40 a(i) = a(i) + 1.0
+end subroutine label_demo
+"""
+
+
+# Free-form programs without a typed declaration in columns 1-5 (classification only)
+NODECL_PROGRAMS = {
+    "hello": "program hello\nprint *, \"hi\"\nend program hello\n",
+    "calls": "subroutine work(a, b)\na = b\ncall helper(a)\ndo i = 1, 3\nb = b + i\nend do\nend subroutine work\n",
+    "module_only": "module holder\ncontains\nsubroutine noop()\nend subroutine noop\nend module holder\n",
+    "indented_deep": "program deep\n      x = 1\n      call sub(x)\n      end program deep\n",
+}
